@@ -151,6 +151,9 @@ def rule_marker_claim(ctx, rep):
         rxv = c14.start_pattern(ctx, cls_short, method)
         rep.instance(rule)
         n += 1
+        if rxv is None:
+            rep.note('%s.%s does not apply one regex literal to the whole line: which marker lines it claims is not decided' % (cls_short, method))
+            continue
         L = rx.Lang(rxv.pattern, rxv.flags, mode='match', alphabet=A)
         S = rx.Lang(blockstart.SPEC[spec_name], mode='full', alphabet=A)
         w = rx.witness([L, marker, rx.line_lang(A)], [S], A)
